@@ -56,9 +56,9 @@ deriving Repr, DecidableEq
 
 /-- has the shared deadline passed once node 1 has been read?  Only a fetch that was made and
 timed out uses up the budget. -/
-def spent (now : Nat) (e : Entry) (f : RFlags) (n : Net) : Bool :=
+def spent (sha : Content → Sum) (now : Nat) (e : Entry) (f : RFlags) (n : Net) : Bool :=
   match n with
-  | .timedOut => wantsFetch now e f
+  | .timedOut => wantsFetch sha now e f
   | _ => false
 
 /-- what node 2's `node.ReadContext(ctx)` comes back with -/
@@ -69,6 +69,18 @@ def net2 (sp : Bool) (f : RFlags) (sv : Server) : Net :=
 switch was passed by node 1) -/
 def gate2 (f : RFlags) (u : Url) : Option Nat :=
   if !u.https && !f.insecure then some 105 else none
+
+/-- the process exit status -/
+def CResult.exit : CResult → Nat
+  | .run _ _ => 0
+  | .cleared => 0
+  | .error code => code
+
+/-- what the invocation executed: node 1's `probe`, which calls node 2's -/
+def CResult.trace : CResult → List Content
+  | .run c1 none => [c1]
+  | .run c1 (some c2) => [c1, c2]
+  | _ => []
 
 /-- a non-`run` outcome of a node ends the load with that error -/
 def liftErr : RResult → CResult
@@ -84,11 +96,14 @@ def finish (f : RFlags) (r : CResult) (s : RState) : CResult × RState :=
 `sp` = the shared deadline has passed -/
 def hopRead (legacy : Bool) (sha : Content → Sum) (s1 : RState) (f : RFlags) (sp : Bool) (h : Hop)
     (u2 : Url) : RResult × Entry :=
-  readRemote legacy sha s1.now (s1.ent u2.id) f (net2 sp f h.server) h.answer
+  readRemote legacy sha s1.now (s1.ent u2.id) f (net2 sp f h.server) h.answer (landing u2 h.server)
 
 /-- one invocation of `task` reading a chain of at most two remote Taskfiles;
-`inc c` = the remote Taskfile that content `c` includes, if any (a parameter, like `sha`) -/
-def invokeChainWith (legacy : Bool) (sha : Content → Sum) (inc : Content → Option Url)
+`inc c b` = the remote Taskfile that content `c`, found at the URL `b`, includes, if any (a parameter,
+like `sha`: a relative reference is resolved against `b`, an absolute one does not look at it).  `b` is
+`baseOf` of node 1's cache entry after its read: the location stored with the cached copy — the same
+whether the copy was downloaded in this invocation or comes out of the cache. -/
+def invokeChainWith (legacy : Bool) (sha : Content → Sum) (inc : Content → Url → Option Url)
     (s : RState) (st : CStep) : CResult × RState :=
   let s0 := s.tick st.base.dt
   match gate st.base with
@@ -96,28 +111,29 @@ def invokeChainWith (legacy : Bool) (sha : Content → Sum) (inc : Content → O
   | none =>
     let f := st.base.flags
     let n1 := net f st.base.server
-    match readRemote legacy sha s0.now (s0.ent st.base.url.id) f n1 st.base.answer with
+    match readRemote legacy sha s0.now (s0.ent st.base.url.id) f n1 st.base.answer
+        (landing st.base.url st.base.server) with
     | (.run c1, e1) =>
       let s1 := s0.set st.base.url.id e1
-      match inc c1 with
+      match inc c1 (baseOf st.base.url e1) with
       | none => finish f (.run c1 none) s1
       | some u2 =>
         if u2.id = st.base.url.id then (.error 110, s1) else
         match gate2 f u2 with
         | some code => (.error code, s1)
         | none =>
-          let sp := spent s0.now (s0.ent st.base.url.id) f n1
+          let sp := spent sha s0.now (s0.ent st.base.url.id) f n1
           match hopRead legacy sha s1 f sp st.hop u2 with
           | (.run c2, e2) => finish f (.run c1 (some c2)) (s1.set u2.id e2)
           | (r, e2) => (liftErr r, s1.set u2.id e2)
     | (r, e1) => (liftErr r, s0.set st.base.url.id e1)
 
 /-- the model of the repaired code -/
-def invokeChain (sha : Content → Sum) (inc : Content → Option Url) (s : RState) (st : CStep) :
+def invokeChain (sha : Content → Sum) (inc : Content → Url → Option Url) (s : RState) (st : CStep) :
     CResult × RState :=
   invokeChainWith false sha inc s st
 
-def runChainWith (legacy : Bool) (sha : Content → Sum) (inc : Content → Option Url) :
+def runChainWith (legacy : Bool) (sha : Content → Sum) (inc : Content → Url → Option Url) :
     RState → List CStep → List CResult × RState
   | s, [] => ([], s)
   | s, st :: rest =>
@@ -125,21 +141,41 @@ def runChainWith (legacy : Bool) (sha : Content → Sum) (inc : Content → Opti
     let (rs, s'') := runChainWith legacy sha inc s' rest
     (r :: rs, s'')
 
-def runChain (sha : Content → Sum) (inc : Content → Option Url) (s : RState) (h : List CStep) :
+def runChain (sha : Content → Sum) (inc : Content → Url → Option Url) (s : RState) (h : List CStep) :
     List CResult × RState :=
   runChainWith false sha inc s h
 
 /-- state reached from the empty cache by a history of chain invocations -/
-def reachChain (sha : Content → Sum) (inc : Content → Option Url) (h : List CStep) : RState :=
+def reachChain (sha : Content → Sum) (inc : Content → Url → Option Url) (h : List CStep) : RState :=
   (runChain sha inc RState.init h).2
 
+inductive CEv
+  | step (st : CStep)
+  | pre (p : Pre)
+deriving Repr, DecidableEq
+
+/-- results of the complete invocations of a history of chain invocations, crashes and damage -/
+def runChainEvWith (legacy : Bool) (sha : Content → Sum) (inc : Content → Url → Option Url) :
+    RState → List CEv → List CResult × RState
+  | s, [] => ([], s)
+  | s, .step st :: rest =>
+    let (r, s') := invokeChainWith legacy sha inc s st
+    let (rs, s'') := runChainEvWith legacy sha inc s' rest
+    (r :: rs, s'')
+  | s, .pre p :: rest => runChainEvWith legacy sha inc (applyPre sha s p) rest
+
+/-- state reached from the empty cache by such a history -/
+def reachChainEv (sha : Content → Sum) (inc : Content → Url → Option Url) (h : List CEv) : RState :=
+  (runChainEvWith false sha inc RState.init h).2
+
 /-- per-step observation used by the driver -/
-def observeChain (legacy : Bool) (sha : Content → Sum) (inc : Content → Option Url) (k : Nat) :
-    RState → List CStep → List (CResult × List Entry)
+def observeChain (legacy : Bool) (sha : Content → Sum) (inc : Content → Url → Option Url) (k : Nat) :
+    RState → List CEv → List (CResult × List Entry)
   | _, [] => []
-  | s, st :: rest =>
+  | s, .step st :: rest =>
     let (r, s') := invokeChainWith legacy sha inc s st
     (r, (List.range k).map s'.ent) :: observeChain legacy sha inc k s' rest
+  | s, .pre p :: rest => observeChain legacy sha inc k (applyPre sha s p) rest
 
 /-! ## What one chain invocation is, case by case -/
 
@@ -152,12 +188,16 @@ def after1 (legacy : Bool) (sha : Content → Sum) (s : RState) (st : CStep) : R
   (s.tick st.base.dt).set st.base.url.id (read1 legacy sha s st).2
 
 /-- the deadline bit after node 1 -/
-def spent1 (s : RState) (st : CStep) : Bool :=
-  spent (s.now + st.base.dt) (s.ent st.base.url.id) st.base.flags (net st.base.flags st.base.server)
+def spent1 (sha : Content → Sum) (s : RState) (st : CStep) : Bool :=
+  spent sha (s.now + st.base.dt) (s.ent st.base.url.id) st.base.flags (net st.base.flags st.base.server)
+
+/-- the URL node 1's includes are resolved against -/
+def base1 (legacy : Bool) (sha : Content → Sum) (s : RState) (st : CStep) : Url :=
+  baseOf st.base.url (read1 legacy sha s st).2
 
 /-- node 2's read -/
 def read2 (legacy : Bool) (sha : Content → Sum) (s : RState) (st : CStep) (u2 : Url) : RResult × Entry :=
-  hopRead legacy sha (after1 legacy sha s st) st.base.flags (spent1 s st) st.hop u2
+  hopRead legacy sha (after1 legacy sha s st) st.base.flags (spent1 sha s st) st.hop u2
 
 /-- the state both nodes leave -/
 def after2 (legacy : Bool) (sha : Content → Sum) (s : RState) (st : CStep) (u2 : Url) : RState :=
@@ -177,7 +217,7 @@ theorem after1_ent_other (legacy sha s st v) (hv : v ≠ st.base.url.id) :
 theorem read2_eq (legacy sha s st) (u2 : Url) (hne : u2.id ≠ st.base.url.id) :
     read2 legacy sha s st u2 =
       readRemote legacy sha (s.now + st.base.dt) (s.ent u2.id) st.base.flags
-        (net2 (spent1 s st) st.base.flags st.hop.server) st.hop.answer := by
+        (net2 (spent1 sha s st) st.base.flags st.hop.server) st.hop.answer (landing u2 st.hop.server) := by
   simp [read2, hopRead, after1_ent_other _ _ _ _ _ hne]
 
 theorem finish_keep (f : RFlags) (r s) (h : f.clearCache = false) : finish f r s = (r, s) := by
@@ -204,7 +244,7 @@ theorem invokeChainWith_err1 (legacy sha inc s st) (hg : gate st.base = none)
 
 /-- node 1 yields `c1`, which includes nothing remote -/
 theorem invokeChainWith_single (legacy sha inc s st c1) (hg : gate st.base = none)
-    (h1 : (read1 legacy sha s st).1 = .run c1) (hi : inc c1 = none) :
+    (h1 : (read1 legacy sha s st).1 = .run c1) (hi : inc c1 (base1 legacy sha s st) = none) :
     invokeChainWith legacy sha inc s st = finish st.base.flags (.run c1 none) (after1 legacy sha s st) := by
   simp only [invokeChainWith, hg, tick_now, tick_ent]
   split
@@ -212,13 +252,15 @@ theorem invokeChainWith_single (legacy sha inc s st c1) (hg : gate st.base = non
     have : c1' = c1 := by
       have h := h1; simp only [read1, stepRead, heq] at h; exact RResult.run.inj h
     subst this
+    have hb : base1 legacy sha s st = baseOf st.base.url e1 := by simp [base1, read1, stepRead, heq]
+    rw [hb] at hi
     simp [hi, after1, read1, stepRead, heq]
   · rename_i r e1 hne heq
     exact absurd (show r = .run c1 by simpa [read1, stepRead, heq] using h1) (hne c1)
 
 /-- node 1 yields `c1`, which includes itself -/
 theorem invokeChainWith_cycle (legacy sha inc s st c1 u2) (hg : gate st.base = none)
-    (h1 : (read1 legacy sha s st).1 = .run c1) (hi : inc c1 = some u2) (hu : u2.id = st.base.url.id) :
+    (h1 : (read1 legacy sha s st).1 = .run c1) (hi : inc c1 (base1 legacy sha s st) = some u2) (hu : u2.id = st.base.url.id) :
     invokeChainWith legacy sha inc s st = (.error 110, after1 legacy sha s st) := by
   simp only [invokeChainWith, hg, tick_now, tick_ent]
   split
@@ -226,13 +268,15 @@ theorem invokeChainWith_cycle (legacy sha inc s st c1 u2) (hg : gate st.base = n
     have : c1' = c1 := by
       have h := h1; simp only [read1, stepRead, heq] at h; exact RResult.run.inj h
     subst this
+    have hb : base1 legacy sha s st = baseOf st.base.url e1 := by simp [base1, read1, stepRead, heq]
+    rw [hb] at hi
     simp [hi, hu, after1, read1, stepRead, heq]
   · rename_i r e1 hne heq
     exact absurd (show r = .run c1 by simpa [read1, stepRead, heq] using h1) (hne c1)
 
 /-- node 1 yields `c1`, which includes a plain-http URL, without `--insecure` -/
 theorem invokeChainWith_gate2 (legacy sha inc s st c1 u2 code) (hg : gate st.base = none)
-    (h1 : (read1 legacy sha s st).1 = .run c1) (hi : inc c1 = some u2) (hu : u2.id ≠ st.base.url.id)
+    (h1 : (read1 legacy sha s st).1 = .run c1) (hi : inc c1 (base1 legacy sha s st) = some u2) (hu : u2.id ≠ st.base.url.id)
     (hg2 : gate2 st.base.flags u2 = some code) :
     invokeChainWith legacy sha inc s st = (.error code, after1 legacy sha s st) := by
   simp only [invokeChainWith, hg, tick_now, tick_ent]
@@ -241,13 +285,15 @@ theorem invokeChainWith_gate2 (legacy sha inc s st c1 u2 code) (hg : gate st.bas
     have : c1' = c1 := by
       have h := h1; simp only [read1, stepRead, heq] at h; exact RResult.run.inj h
     subst this
+    have hb : base1 legacy sha s st = baseOf st.base.url e1 := by simp [base1, read1, stepRead, heq]
+    rw [hb] at hi
     simp [hi, hu, hg2, after1, read1, stepRead, heq]
   · rename_i r e1 hne heq
     exact absurd (show r = .run c1 by simpa [read1, stepRead, heq] using h1) (hne c1)
 
 /-- node 1 yields `c1`, which includes `u2`; node 2 yields `c2` -/
 theorem invokeChainWith_both (legacy sha inc s st c1 u2 c2) (hg : gate st.base = none)
-    (h1 : (read1 legacy sha s st).1 = .run c1) (hi : inc c1 = some u2) (hu : u2.id ≠ st.base.url.id)
+    (h1 : (read1 legacy sha s st).1 = .run c1) (hi : inc c1 (base1 legacy sha s st) = some u2) (hu : u2.id ≠ st.base.url.id)
     (hg2 : gate2 st.base.flags u2 = none) (h2 : (read2 legacy sha s st u2).1 = .run c2) :
     invokeChainWith legacy sha inc s st =
       finish st.base.flags (.run c1 (some c2)) (after2 legacy sha s st u2) := by
@@ -257,10 +303,12 @@ theorem invokeChainWith_both (legacy sha inc s st c1 u2 c2) (hg : gate st.base =
     have : c1' = c1 := by
       have h := h1; simp only [read1, stepRead, heq] at h; exact RResult.run.inj h
     subst this
+    have hb : base1 legacy sha s st = baseOf st.base.url e1 := by simp [base1, read1, stepRead, heq]
+    rw [hb] at hi
     have he1 : (read1 legacy sha s st).2 = e1 := by simp [read1, stepRead, heq]
     simp only [hi, hu, hg2, if_false]
     have hr : hopRead legacy sha ((s.tick st.base.dt).set st.base.url.id e1) st.base.flags
-        (spent (s.now + st.base.dt) (s.ent st.base.url.id) st.base.flags (net st.base.flags st.base.server))
+        (spent sha (s.now + st.base.dt) (s.ent st.base.url.id) st.base.flags (net st.base.flags st.base.server))
         st.hop u2 = read2 legacy sha s st u2 := by
       simp [read2, after1, he1, spent1]
     rw [hr]
@@ -278,7 +326,7 @@ theorem invokeChainWith_both (legacy sha inc s st c1 u2 c2) (hg : gate st.base =
 /-- node 1 yields `c1`, which includes `u2`; node 2 gives no content: its error ends the load
 (node 1's cache writes stay) -/
 theorem invokeChainWith_err2 (legacy sha inc s st c1 u2) (hg : gate st.base = none)
-    (h1 : (read1 legacy sha s st).1 = .run c1) (hi : inc c1 = some u2) (hu : u2.id ≠ st.base.url.id)
+    (h1 : (read1 legacy sha s st).1 = .run c1) (hi : inc c1 (base1 legacy sha s st) = some u2) (hu : u2.id ≠ st.base.url.id)
     (hg2 : gate2 st.base.flags u2 = none) (h2 : ∀ c, (read2 legacy sha s st u2).1 ≠ .run c) :
     invokeChainWith legacy sha inc s st =
       (liftErr (read2 legacy sha s st u2).1, after2 legacy sha s st u2) := by
@@ -288,10 +336,12 @@ theorem invokeChainWith_err2 (legacy sha inc s st c1 u2) (hg : gate st.base = no
     have : c1' = c1 := by
       have h := h1; simp only [read1, stepRead, heq] at h; exact RResult.run.inj h
     subst this
+    have hb : base1 legacy sha s st = baseOf st.base.url e1 := by simp [base1, read1, stepRead, heq]
+    rw [hb] at hi
     have he1 : (read1 legacy sha s st).2 = e1 := by simp [read1, stepRead, heq]
     simp only [hi, hu, hg2, if_false]
     have hr : hopRead legacy sha ((s.tick st.base.dt).set st.base.url.id e1) st.base.flags
-        (spent (s.now + st.base.dt) (s.ent st.base.url.id) st.base.flags (net st.base.flags st.base.server))
+        (spent sha (s.now + st.base.dt) (s.ent st.base.url.id) st.base.flags (net st.base.flags st.base.server))
         st.hop u2 = read2 legacy sha s st u2 := by
       simp [read2, after1, he1, spent1]
     rw [hr]
@@ -304,29 +354,29 @@ theorem invokeChainWith_err2 (legacy sha inc s st c1 u2) (hg : gate st.base = no
     exact absurd (show r = .run c1 by simpa [read1, stepRead, heq] using h1) (hne c1)
 
 /-- The shape of every chain invocation: which nodes were read, what each gave. -/
-inductive Shape (legacy : Bool) (sha : Content → Sum) (inc : Content → Option Url)
+inductive Shape (legacy : Bool) (sha : Content → Sum) (inc : Content → Url → Option Url)
     (s : RState) (st : CStep) : Prop
   | gated (code : Nat) (hg : gate st.base = some code)
       (he : invokeChainWith legacy sha inc s st = (.error code, s.tick st.base.dt))
   | err1 (hg : gate st.base = none) (h1 : ∀ c, (read1 legacy sha s st).1 ≠ .run c)
       (he : invokeChainWith legacy sha inc s st = (liftErr (read1 legacy sha s st).1, after1 legacy sha s st))
   | single (c1 : Content) (hg : gate st.base = none) (h1 : (read1 legacy sha s st).1 = .run c1)
-      (hi : inc c1 = none)
+      (hi : inc c1 (base1 legacy sha s st) = none)
       (he : invokeChainWith legacy sha inc s st = finish st.base.flags (.run c1 none) (after1 legacy sha s st))
   | cycle (c1 : Content) (u2 : Url) (hg : gate st.base = none) (h1 : (read1 legacy sha s st).1 = .run c1)
-      (hi : inc c1 = some u2) (hu : u2.id = st.base.url.id)
+      (hi : inc c1 (base1 legacy sha s st) = some u2) (hu : u2.id = st.base.url.id)
       (he : invokeChainWith legacy sha inc s st = (.error 110, after1 legacy sha s st))
   | gated2 (c1 : Content) (u2 : Url) (code : Nat) (hg : gate st.base = none)
-      (h1 : (read1 legacy sha s st).1 = .run c1) (hi : inc c1 = some u2) (hu : u2.id ≠ st.base.url.id)
+      (h1 : (read1 legacy sha s st).1 = .run c1) (hi : inc c1 (base1 legacy sha s st) = some u2) (hu : u2.id ≠ st.base.url.id)
       (hg2 : gate2 st.base.flags u2 = some code)
       (he : invokeChainWith legacy sha inc s st = (.error code, after1 legacy sha s st))
   | err2 (c1 : Content) (u2 : Url) (hg : gate st.base = none)
-      (h1 : (read1 legacy sha s st).1 = .run c1) (hi : inc c1 = some u2) (hu : u2.id ≠ st.base.url.id)
+      (h1 : (read1 legacy sha s st).1 = .run c1) (hi : inc c1 (base1 legacy sha s st) = some u2) (hu : u2.id ≠ st.base.url.id)
       (hg2 : gate2 st.base.flags u2 = none) (h2 : ∀ c, (read2 legacy sha s st u2).1 ≠ .run c)
       (he : invokeChainWith legacy sha inc s st =
         (liftErr (read2 legacy sha s st u2).1, after2 legacy sha s st u2))
   | both (c1 : Content) (u2 : Url) (c2 : Content) (hg : gate st.base = none)
-      (h1 : (read1 legacy sha s st).1 = .run c1) (hi : inc c1 = some u2) (hu : u2.id ≠ st.base.url.id)
+      (h1 : (read1 legacy sha s st).1 = .run c1) (hi : inc c1 (base1 legacy sha s st) = some u2) (hu : u2.id ≠ st.base.url.id)
       (hg2 : gate2 st.base.flags u2 = none) (h2 : (read2 legacy sha s st u2).1 = .run c2)
       (he : invokeChainWith legacy sha inc s st =
         finish st.base.flags (.run c1 (some c2)) (after2 legacy sha s st u2))
@@ -336,12 +386,12 @@ theorem shape (legacy sha inc s st) : Shape legacy sha inc s st := by
   | some code => exact .gated code hg (invokeChainWith_gate _ _ _ _ _ _ hg)
   | none =>
     cases h1 : (read1 legacy sha s st).1 with
-    | cleared => exact absurd h1 (readRemote_never_cleared _ _ _ _ _ _ _)
+    | cleared => exact absurd h1 (readRemote_never_cleared _ _ _ _ _ _ _ _)
     | error code =>
       have hn : ∀ c, (read1 legacy sha s st).1 ≠ .run c := by intro c hc; rw [h1] at hc; cases hc
       exact .err1 hg hn (invokeChainWith_err1 _ _ _ _ _ hg hn)
     | run c1 =>
-      cases hi : inc c1 with
+      cases hi : inc c1 (base1 legacy sha s st) with
       | none => exact .single c1 hg h1 hi (invokeChainWith_single _ _ _ _ _ _ hg h1 hi)
       | some u2 =>
         by_cases hu : u2.id = st.base.url.id
@@ -351,7 +401,7 @@ theorem shape (legacy sha inc s st) : Shape legacy sha inc s st := by
             exact .gated2 c1 u2 code hg h1 hi hu hg2 (invokeChainWith_gate2 _ _ _ _ _ _ _ _ hg h1 hi hu hg2)
           | none =>
             cases h2 : (read2 legacy sha s st u2).1 with
-            | cleared => exact absurd h2 (readRemote_never_cleared _ _ _ _ _ _ _)
+            | cleared => exact absurd h2 (readRemote_never_cleared _ _ _ _ _ _ _ _)
             | error code =>
               have hn : ∀ c, (read2 legacy sha s st u2).1 ≠ .run c := by
                 intro c hc; rw [h2] at hc; cases hc
@@ -367,13 +417,13 @@ def liftResult : RResult → CResult
   | .error code => .error code
 
 theorem invokeChainWith_noinc (legacy sha s st) :
-    invokeChainWith legacy sha (fun _ => none) s st =
+    invokeChainWith legacy sha (fun _ _ => none) s st =
       (liftResult (invokeWith legacy sha s st.base).1, (invokeWith legacy sha s st.base).2) := by
   cases hg : gate st.base with
   | some code => rw [invokeChainWith_gate _ _ _ _ _ _ hg, invokeWith_gate _ _ _ _ _ hg]; rfl
   | none =>
     cases h1 : (read1 legacy sha s st).1 with
-    | cleared => exact absurd h1 (readRemote_never_cleared _ _ _ _ _ _ _)
+    | cleared => exact absurd h1 (readRemote_never_cleared _ _ _ _ _ _ _ _)
     | error code =>
       have hn : ∀ c, (read1 legacy sha s st).1 ≠ .run c := by intro c hc; rw [h1] at hc; cases hc
       rw [invokeChainWith_err1 _ _ _ _ _ hg hn]
